@@ -110,7 +110,7 @@ async fn scenario(case: &Value) -> Value {
                     subs.insert(sid.clone(), subscribe(&client, format!("{base}/sessions/{sid}/events")));
                     kinds.insert(sid.clone(), "session".into());
                     let (d, t, s) = (data.clone(), thread.clone(), sid.clone());
-                    wait_for(move || frames_of(&d, &t).iter().any(|f| f["type"] == "continuity_run_ended" && f["run_session_id"] == json!(s)), 12000).await;
+                    wait_for(move || frames_of(&d, &t).iter().any(|f| f["type"] == "continuity_run_ended" && f["run_session_id"] == json!(s)), 30000).await;
                 }
                 notes.push(json!({"op": op, "http": code}));
             }
@@ -121,7 +121,7 @@ async fn scenario(case: &Value) -> Value {
                 kinds.insert(sid.clone(), "session".into());
                 let (code, _) = post(&client, format!("{base}/sessions/{sid}/input"), json!({"input": st["input"].to_string()})).await;
                 let (d, s) = (data.clone(), sid.clone());
-                wait_for(move || frames_of(&d, &s).iter().any(|f| f["type"] == "session_ended"), 12000).await;
+                wait_for(move || frames_of(&d, &s).iter().any(|f| f["type"] == "session_ended"), 30000).await;
                 notes.push(json!({"op": op, "http": code}));
             }
             "task" => {
@@ -135,7 +135,7 @@ async fn scenario(case: &Value) -> Value {
                         let _ = post(&client, format!("{base}/tasks/{tid}/cancel"), json!({"reason": "vérif ✓"})).await;
                     }
                     let (d, t) = (data.clone(), tid.clone());
-                    wait_for(move || frames_of(&d, &t).iter().any(|f| f["type"] == "tool_task_status" && matches!(f["status"].as_str(), Some("exited") | Some("cancelled") | Some("failed"))), 12000).await;
+                    wait_for(move || frames_of(&d, &t).iter().any(|f| f["type"] == "tool_task_status" && matches!(f["status"].as_str(), Some("exited") | Some("cancelled") | Some("failed"))), 30000).await;
                 }
                 notes.push(json!({"op": op, "http": code}));
             }
@@ -177,8 +177,8 @@ async fn scenario(case: &Value) -> Value {
         };
         late.insert(id.clone(), subscribe(&client, url));
     }
-    // a late subscriber gets the past frames at once; on a busy machine "at once" is given up to 4 s
-    let deadline = std::time::Instant::now() + Duration::from_secs(4);
+    // a late subscriber gets the past frames at once; on a busy machine "at once" is given up to 20 s
+    let deadline = std::time::Instant::now() + Duration::from_secs(20);
     loop {
         let done = kinds.keys().all(|id| {
             let want = frames_of(&data, id).len();
@@ -238,7 +238,7 @@ async fn scenario(case: &Value) -> Value {
                 subs2.insert(id.clone(), subscribe(&client, format!("{base2}/threads/{id}/events")));
             }
         }
-        let deadline2 = std::time::Instant::now() + Duration::from_secs(4);
+        let deadline2 = std::time::Instant::now() + Duration::from_secs(20);
         loop {
             let done = subs2.iter().all(|(id, (s, _))| s.lock().unwrap().len() >= frames_of(&data, id).len());
             if done || std::time::Instant::now() >= deadline2 {
